@@ -24,7 +24,8 @@ RULE = ('Generated Yahoo-format CSV files (1-2 symbols with different first date
         'open lies after t is rewritten or deleted and when the row order is permuted. Non-trivial = some row lies '
         'after t, or t precedes the first bar, or the answer needed a forward fill; distinct = distinct case JSON.'
         ' Round-5 reach: a source quoting a spread (ask = 1.25 x bid) behind the handler (handler ask == source ask, handler bid == source bid); a fresh source asked about several symbols at instants that jump back and forth in time (second-level offsets so that memoised answers are not reused).'
-        " Round-10 reach: the first source of a case answers fresh instants again after every other source of the case and a differently priced decoy directory for the same symbols were built; a sixth of the files carry whole-number cells (no decimal point), some of ten digits.")
+        " Round-10 reach: the first source of a case answers fresh instants again after every other source of the case and a differently priced decoy directory for the same symbols were built; a sixth of the files carry whole-number cells (no decimal point), some of ten digits."
+        " Round-11 reach: a fresh source whose first requests are closing-price range queries (with and without `adjusted`) is priced through a handler afterwards, at instants +-0.4 s, +-0.6 s and +-1 us around the generated ones.")
 ASSUMPTIONS = [
     'well-formed CSV files with a Date column and unique dates (duplicate dates and header-only files are rejected by '
     'the loader and are not in the domain)',
@@ -213,6 +214,30 @@ def run_case(case):
                                             'instants before returned %r; point-in-time answer is %r' % (k, t, name, adjust, g, exp))
                     nq += 1
                 cls.add('interleaved_symbols_and_instants')
+            # a fresh source whose first requests are range queries for closing prices (through the handler, with and
+            # without the `adjusted` flag - whatever they return or raise, they are read-only), priced only afterwards; the
+            # handler is asked at instants a fraction of a second either side of the prints as well
+            ds4 = q.CSVDailyBarDataSource(path, q.Equity, adjust_prices=adjust, csv_symbols=list(syms))
+            dh4 = q.BacktestDataHandler(None, data_sources=[ds4])
+            lo_, hi_ = min(queries) - pd.Timedelta(days=3), max(queries) + pd.Timedelta(days=3)
+            for f_ in (lambda: dh4.get_assets_historical_range_close_price(lo_, hi_, ['EQ:' + n for n in syms], adjusted=True),
+                       lambda: dh4.get_assets_historical_range_close_price(lo_, hi_, ['EQ:' + n for n in syms]),
+                       lambda: ds4.get_assets_historical_closes(lo_, hi_, ['EQ:' + n for n in syms])):
+                try:
+                    f_()
+                except Exception:                                 # noqa
+                    pass
+            for name, rows in syms.items():
+                obs = observations(rows, adjust)
+                for k_, t in enumerate(queries[:8]):
+                    t = t + pd.Timedelta(microseconds=[-400000, 600000, -1, 1, 0, 250000, -600000, 400000][k_])
+                    exp = lookup(obs, t)[0]
+                    for k, g in (('bid', dh4.get_asset_latest_bid_price(t, 'EQ:' + name)),
+                                 ('ask', dh4.get_asset_latest_ask_price(t, 'EQ:' + name)),
+                                 ('mid', dh4.get_asset_latest_mid_price(t, 'EQ:' + name))):
+                        if not same(float(g), exp):
+                            raise Violation('handler %s(%s, EQ:%s) adjust=%s on a source first asked for closing-price ranges '
+                                            'returned %r; point-in-time answer is %r' % (k, t, name, adjust, g, exp))
             for t in queries[:3]:
                 u = dh.get_asset_latest_bid_price(t, 'EQ:NOPE')
                 m_ = dh.get_asset_latest_mid_price(t, 'EQ:NOPE')
